@@ -200,7 +200,8 @@ def snapshot(w, relax_links=False):
         rec['ext'].sort()
         for gi, g in enumerate(groups):
             st, m = W.mask_of(d, g.subset_state)
-            if any(getattr(a, 'parent', None) is not None and not any(a.parent is x for x in dc) for a in attrs_of(g.subset_state, [])):
+            if any(getattr(a, 'parent', None) is not None and not any(a.parent is x for x in dc) for a in attrs_of(g.subset_state, [])) or \
+                    bound_outside(g.subset_state, dc):
                 # the selection is defined on attributes of a dataset that has left the collection: whether a dataset still in
                 # it can evaluate it depends on what the departed dataset (not part of the session) still carries - links that
                 # were dropped when it left survive on it as stale derived components until it is re-appended
@@ -242,6 +243,16 @@ def json_able(v):
     if isinstance(v, dict):
         return all(isinstance(k, str) and json_able(x) for k, x in v.items())
     return False
+
+
+def bound_outside(st, dc):
+    """An element selection is bound to one dataset (by uuid): is that dataset outside the collection?"""
+    uuids = set(d.uuid for d in dc)
+    kids = [x for x in (getattr(st, 'state1', None), getattr(st, 'state2', None)) if x is not None] + list(getattr(st, 'states', ()))
+    if any(bound_outside(k, dc) for k in kids):
+        return True
+    u = getattr(st, '_data_uuid', None)
+    return u is not None and u not in uuids
 
 
 def first_diff(a, b):
